@@ -6,7 +6,7 @@ use base64::Engine;
 use bytes::Bytes;
 use serde::{Deserialize, Serialize};
 use std::time::Duration;
-use tokio::io::AsyncWriteExt;
+use tokio::io::{AsyncReadExt, AsyncWriteExt};
 use trusttunnel::verif::session::{ChannelView, Proto};
 
 pub fn b64(s: &str) -> String {
@@ -32,6 +32,12 @@ pub struct Req {
     pub extra_headers: Vec<(String, Vec<u8>)>,
     /// after a 200: send this payload and expect it echoed
     pub payload: Vec<u8>,
+    /// HTTP/1.1: the payload follows the request head at once, without waiting for the 200
+    #[serde(default)]
+    pub early_payload: bool,
+    /// ... or this long after the head (still without waiting for the answer)
+    #[serde(default)]
+    pub early_delay_ms: u32,
 }
 
 impl Req {
@@ -43,6 +49,8 @@ impl Req {
             auth: vec![auth],
             extra_headers: vec![],
             payload: b"ping".to_vec(),
+            early_payload: false,
+            early_delay_ms: 0,
         }
     }
 
@@ -149,11 +157,52 @@ pub async fn run_h1(
     );
     let mut obs = Obs::default();
     let start = tokio::time::Instant::now();
-    if let Err(e) = io.write_all(&req.h1_bytes()).await {
-        obs.error = Some(format!("write: {}", e));
-        return obs;
+    let mut wire = req.h1_bytes();
+    let early = req.early_payload && req.method == "CONNECT" && !req.payload.is_empty();
+    if early && req.early_delay_ms == 0 {
+        wire.extend_from_slice(&req.payload);
     }
-    match read_h1_response(&mut io, wait).await {
+    if let Err(e) = io.write_all(&wire).await {
+        // with early data in flight the endpoint may answer and close before it has taken all of
+        // it: the answer is then waiting to be read
+        if !(early && req.early_delay_ms == 0) {
+            obs.error = Some(format!("write: {}", e));
+            return obs;
+        }
+    }
+    // the early payload may also leave a while after the head: read meanwhile (a read of the
+    // in-memory transport that is cancelled by the timer loses nothing)
+    let mut early_sent = early && req.early_delay_ms == 0;
+    let response = if early && req.early_delay_ms > 0 {
+        let mut buf = vec![];
+        let deadline = start + wait;
+        let write_at = start + Duration::from_millis(req.early_delay_ms as u64);
+        loop {
+            match world::parse_h1_response(&buf) {
+                Ok(Some(r)) => break Ok(Some(r)),
+                Ok(None) => {}
+                Err(e) => break Err(e),
+            }
+            let next = if early_sent { deadline } else { write_at.min(deadline) };
+            let mut tmp = [0u8; 4096];
+            match tokio::time::timeout_at(next, io.read(&mut tmp)).await {
+                Err(_) if !early_sent => {
+                    early_sent = true;
+                    // the endpoint may have answered and closed by now: a failing write is fine
+                    let _ = io.write_all(&req.payload).await;
+                }
+                Err(_) => break Ok(None),
+                Ok(Ok(0)) => {
+                    break if buf.is_empty() { Ok(None) } else { Err(format!("connection closed inside a response head: {:?}", String::from_utf8_lossy(&buf))) };
+                }
+                Ok(Ok(n)) => buf.extend_from_slice(&tmp[..n]),
+                Ok(Err(e)) => break Err(format!("read error: {}", e)),
+            }
+        }
+    } else {
+        read_h1_response(&mut io, wait).await
+    };
+    match response {
         Err(e) => {
             obs.error = Some(e);
             return obs;
@@ -172,7 +221,9 @@ pub async fn run_h1(
                 .collect();
             let mut rest = r.rest.clone();
             if r.status == 200 && req.method == "CONNECT" && !req.payload.is_empty() {
-                let _ = io.write_all(&req.payload).await;
+                if !early_sent {
+                    let _ = io.write_all(&req.payload).await;
+                }
                 let _ = io.shutdown().await;
                 let (more, closed) = read_to_end(&mut io, Duration::from_secs(5)).await;
                 rest.extend_from_slice(&more);
